@@ -41,22 +41,64 @@ func (m *Mutex) Unlock() {
 	sim.Released(unsafe.Pointer(m), sim.OpUnlock)
 }
 
-type RWMutex struct{ m sync.RWMutex }
+// RWMutex: under the scheduler a writer announces itself before it waits for the readers to leave, and from then
+// on no new reader is let in until that writer has had the lock - as sync.RWMutex does it (one writer at a time is
+// the announced one; the others wait behind it). Without that a read lock taken twice by one caller never meets
+// the writer in between that makes it a deadlock. The flag is a plain field read and written inside norace
+// functions only: one task runs at a time, and an atomic here would order the callers for the race detector.
+type RWMutex struct {
+	m    sync.RWMutex
+	wann bool
+}
+
+//go:norace
+func (m *RWMutex) tryAnnounce() bool {
+	if m.wann {
+		return false
+	}
+	m.wann = true
+	announcedOnes = append(announcedOnes, m)
+	return true
+}
+
+// announcedOnes: every lock a writer has announced itself on in this run. A run the scheduler aborts (a deadlock
+// it has found) leaves its callers where they stood, some of them between the announcement and the lock: the next
+// run in this process starts with the flags cleared (ResetAnnounced).
+var announcedOnes []*RWMutex
+
+//go:norace
+func ResetAnnounced() {
+	for _, m := range announcedOnes {
+		m.wann = false
+	}
+	announcedOnes = announcedOnes[:0]
+}
+
+//go:norace
+func (m *RWMutex) announced() bool { return m.wann }
+
+//go:norace
+func (m *RWMutex) clearAnnounce() { m.wann = false }
 
 func (m *RWMutex) Lock() {
 	if !sim.Active() {
 		m.m.Lock()
 		return
 	}
+	sim.Acquire(unsafe.Pointer(m), sim.OpLock, m.tryAnnounce)
 	sim.Acquire(unsafe.Pointer(m), sim.OpLock, m.m.TryLock)
 }
 
 func (m *RWMutex) TryLock() bool {
 	sim.Yield(sim.OpLock)
+	if m.announced() {
+		return false
+	}
 	return m.m.TryLock()
 }
 
 func (m *RWMutex) Unlock() {
+	m.clearAnnounce()
 	m.m.Unlock()
 	sim.Released(unsafe.Pointer(m), sim.OpUnlock)
 }
@@ -66,12 +108,12 @@ func (m *RWMutex) RLock() {
 		m.m.RLock()
 		return
 	}
-	sim.Acquire(unsafe.Pointer(m), sim.OpRLock, m.m.TryRLock)
+	sim.Acquire(unsafe.Pointer(m), sim.OpRLock, func() bool { return !m.announced() && m.m.TryRLock() })
 }
 
 func (m *RWMutex) TryRLock() bool {
 	sim.Yield(sim.OpRLock)
-	return m.m.TryRLock()
+	return !m.announced() && m.m.TryRLock()
 }
 
 func (m *RWMutex) RUnlock() {
